@@ -153,13 +153,15 @@ Definition py_format (tpl : string) (fields : list (string * string)) : string :
 (* wrap_file: submodules = Some names for the main file, None for a submodule file *)
 Definition sub_decl (s : string) : string := "void " ++ s ++ "(py::module_ &);".
 Definition sub_init (s : string) : string := s ++ "(m_);".
-Definition file_fields (q : pquirks) (c : cfg) (doc : option (string -> string -> list string -> string))
+(* `pre`: what _serializing_classes holds when wrap_file starts ([] for a fresh wrapper) *)
+Definition file_fields_from (pre : list string) (q : pquirks) (c : cfg)
+           (doc : option (string -> string -> list string -> string))
            (module_name : string) (submodules : option (list string)) (content : list item)
   : list (string * string) :=
   let o := wrap_module q c doc content in
   let includes := String.concat "" (o_includes o)
                   ++ (if boost c then "#include <boost/serialization/export.hpp>" else "") in
-  let export := if boost c then r_boost_export (dedup (o_serial o) []) else "" in
+  let export := if boost c then r_boost_export (pre ++ dedup (o_serial o) pre)%list else "" in
   let module_def := match submodules with
                     | Some _ => "PYBIND11_MODULE(" ++ module_name ++ ", m_)"
                     | None => "void " ++ module_name ++ "(py::module_ &m_)"
@@ -169,6 +171,7 @@ Definition file_fields (q : pquirks) (c : cfg) (doc : option (string -> string -
    ("wrapped_namespace", r_items (o_items o)); ("boost_class_export", export);
    ("submodules", join nl (map sub_decl subs));
    ("submodules_init", join nl (map sub_init subs))].
+Definition file_fields := file_fields_from [].
 
 Definition r_file (q : pquirks) (c : cfg) (doc : option (string -> string -> list string -> string))
            (tpl module_name : string) (submodules : option (list string)) (content : list item) : string :=
